@@ -226,11 +226,16 @@ def run_binary(args):
 
 # ---------------------------------------------------------------- the check
 def run(chk):
-    chk.rule = ('seeded programs of 1-6 items (struct, unit struct, newtype, unit enum, data-carrying enum, alias, const), 30% un-annotated, each wrapped in '
-                '0-4 nested mod / fn / impl bodies, annotated union / fn / static / trait decoys, serde(skip) / typeshare(skip) on 30% of the fields, variants '
-                'and struct-variant fields plus families enumerating EVERY skip subset of one member list (<= 4 members), attribute order and '
-                'splitting permuted; all six languages. non-trivial = distinct (program, language | front) inside the theorem domain with at '
-                'least one annotated item and at least one of: skipped member, nesting, un-annotated item')
+    chk.rule = ('first the fixed witnesses / corner cases (both finding classes, --target-os lists over cfg-guarded items and members, depth-5 nesting, impl / trait '
+                'method bodies, skip next to other serde arguments, all variants skipped, unparsable item next to a parsable one); then seeded programs of 1-6 '
+                'items (struct, unit struct, newtype, unit enum, data-carrying enum, alias; a const in every 4th program), 30% un-annotated, each wrapped in '
+                '0-4 nested mod / fn / impl bodies, annotated union / fn / static / trait decoys, #[typeshare(args)] on 12% of the items, serde(skip) / '
+                'typeshare(skip) on 30% of the fields, variants and struct-variant fields, an unsupported type planted in 8% of the programs (possibly in a '
+                'skipped member), plus families enumerating EVERY skip subset of one member list (<= 4 members), attribute order and splitting permuted; '
+                'all six languages; the real binary on a sample with and without failing items. non-trivial = distinct (program, language | front) inside '
+                'the theorem domain with at least one annotated item and at least one of: skipped member, nesting, un-annotated item')
+    chk.notes.append('annotated union / fn / static / trait items are ignored by typeshare without a diagnostic: outside the item kinds of the property '
+                     '(struct, enum, type alias, const); they are planted as decoys and must contribute nothing')
     chk.assumptions = ['syn is not modelled: the model receives the AST produced by harness/libdrive/src/ast.rs (syn) from the same source text',
                        'generated text is read back by lib/extract.py (validated by tools/extract_selftest.py); definitions are identified by their signature '
                        '(kind, member keys, variant wire names), not by their name (naming is C02/C09)',
@@ -243,14 +248,14 @@ def run(chk):
     gen = progs.ProgGen(rng, profile())
     gen_noconst = progs.ProgGen(rng, progs.Profile(**dict(vars(profile()), allow_const=False)))
     programs, targets = [], []
-    nrand = 1400 if quick else 20000
+    nrand = 3000 if quick else 24000
     for i in range(nrand):
         p = (gen if i % 4 == 0 else gen_noconst).program()
         nest(rng, p)
         if rng.random() < 0.08:
             plant_error(rng, p)
         programs.append(p)
-    for _ in range(14 if quick else 400):
+    for _ in range(24 if quick else 400):
         programs += subset_family(rng, gen_noconst)
     srcs = [src for src, _ in FIXED] + [progs.source(p) for p in programs]
     targets = [t for _, t in FIXED] + [[] for _ in programs]
@@ -340,7 +345,7 @@ def run(chk):
             chk.sample({'source_head': src[:400], 'front_obs': fobs[k][1], 'expected_items': m['expected']})
 
     # ---------- (b) back ends
-    nb = 420 if quick else 6000
+    nb = 900 if quick else 6000
     sel = [k for k in usable if k < nrand and fobs[k][0] == 'ok'][:nb] + [k for k in usable if k >= nrand and fobs[k][0] == 'ok'][:(200 if quick else 3000)]
     cases = [(k, L) for k in sel for L in LANGS]
     ires = vf.impl([{'cmd': 'generate', 'lang': L[0], 'cfg': L[3], 'src': srcs[k], 'target_os': targets[k]} for k, L in cases])
@@ -402,7 +407,7 @@ def run(chk):
     if chk.cli_ok:
         with_err = [k for k in usable if not targets[k] and fobs[k][0] == 'ok' and fobs[k][1][4] > 0]
         without = [k for k in usable if not targets[k] and fobs[k][0] == 'ok' and fobs[k][1][4] == 0 and sum(len(x) for x in fobs[k][1][:4]) > 0]
-        ncli = 36 if quick else 600
+        ncli = 48 if quick else 600
         pick = with_err[:ncli] + without[:ncli]
         jobs = [(srcs[k], LANGS[i % 6][0], LANGS[i % 6][1], LANGS[i % 6][2]) for i, k in enumerate(pick)]
         with concurrent.futures.ThreadPoolExecutor(max_workers=vf.NPROC) as ex:
@@ -460,23 +465,28 @@ def replay(chk, path):
     if 'source' not in d:
         print(json.dumps(d, indent=1)[:3000])
         return 0
-    src = d['source']
+    src, t = d['source'], d.get('target_os') or []
     a = vf.impl([{'cmd': 'ast', 'src': src}])[0]
-    r = vf.impl([{'cmd': 'parse', 'src': src, 'target_os': []}])[0]
+    r = vf.impl([{'cmd': 'parse', 'src': src, 'target_os': t}])[0]
     fo = front_obs(r)
     print('impl front :', fo[:2])
     if 'ok' in a:
-        m = vf.model([f'(c03_front {a["ok"]} {a["tstrs"]} () {obs_sx(fo[1]) if fo[0] == "ok" else "na"})'])[0]
+        m = vf.model([f'(c03_front {a["ok"]} {a["tstrs"]} {Lst(t, S)} {obs_sx(fo[1]) if fo[0] == "ok" else "na"})'])[0]
         print('model front:', model_front(m))
+        if fo[2] is not None:
+            print('impl members:', impl_members(fo[2]))
+            print('spec members:', dump_sx(vf.model([f'(c03_members {a["ok"]} {Lst(t, S)})'])[0]))
     for L in LANGS:
         if d.get('lang') not in (None, L[0]):
             continue
-        g = vf.impl([{'cmd': 'generate', 'lang': L[0], 'cfg': L[3], 'src': src, 'target_os': []}])[0]
+        g = vf.impl([{'cmd': 'generate', 'lang': L[0], 'cfg': L[3], 'src': src, 'target_os': t}])[0]
         if 'ok' in g and 'ok' in a:
             defs, unparsed, _ = extract_defs(L[0], g['ok'])
-            j = vf.model([f'(c03_back {L[0]} {a["ok"]} () {defs_sx(defs)})'])[0]
-            print(L[0], 'impl defs:', non_helper(defs))
-            print(L[0], 'verdict (dom known good):', j[0], j[1], j[2])
+            j = vf.model([f'(c03_back {L[0]} {a["ok"]} {Lst(t, S)} {defs_sx(defs)})'])[0]
+            mm = vf.model([f'(c03_model {L[0]} {back.cfg_sx(L[3])} {a["ok"]} {a["tstrs"]} {Lst(t, S)})'])[0]
+            print(L[0], 'impl defs :', non_helper(defs))
+            print(L[0], 'model defs:', non_helper(model_defs(mm[1])) if mm[0] == 'ok' else mm)
+            print(L[0], 'verdict (in domain, known class, good):', j[0], j[1], j[2])
         else:
             print(L[0], 'impl:', {x: g[x] for x in g if x != 'ir'})
     return 0
